@@ -18,6 +18,7 @@ LEVEL_TEXT = ("Control- and data-flow rules on the MIR of the CLI's main() (buil
               "is created/truncated and written completely), (A) the option declarations handed to clap are plain flags / single-value options as main reads them, and C18's traversal rules for ParseError::all, on which the parse-error gate relies.")
 LEVEL_NOTE = ("Not decided: byte equality of stdout with the library's output, clap's option parsing, exit codes as observed from a process; "
               "the language loader and grammar compilation are outside the property.")
+LEVEL_TEXT += (' The texts given to File::from_str, Parser::parse and execute are String::from_utf8(fs::read(path)) looked at through error-handling wrappers only (no trimming, BOM or newline normalisation).')
 
 
 def flag_of(e):
